@@ -526,7 +526,7 @@ func (ts *TestScript) setup() string {
 		if rel, err := filepath.Rel(ts.workdir, name); err != nil || !filepath.IsLocal(rel) {
 			ts.Fatalf("%s: file name refers outside the work directory", f.Name)
 		}
-		ts.scriptFiles[name] = f.Name
+		ts.scriptFiles[filepath.Clean(name)] = f.Name
 		ts.Check(os.MkdirAll(filepath.Dir(name), 0o777))
 		switch err := writeFile(name, f.Data, 0o666, ts.params.RequireUniqueNames); {
 		case ts.params.RequireUniqueNames && errors.Is(err, fs.ErrExist):
